@@ -78,29 +78,33 @@ Dests == LET o == Options IN [i \in DOMAIN o |-> o[i].dest]
 \* ("--opt value" / "--opt=value" are both written as one token with v).  Result: [ok, ns] with
 \* ns a function from destination index (position in Options) ... kept as a sequence of
 \* <<dest, value>> in destination order
-OptIdx(name) == LET o == Options IN IF \E i \in DOMAIN o : o[i].name = name THEN CHOOSE i \in DOMAIN o : o[i].name = name ELSE 0
-RECURSIVE ParseAcc(_, _)
-ParseAcc(argv, acc) ==
+\* (the option table is computed once per use and passed along: TLC re-evaluates a
+\* definition at every reference)
+OptIdx(o, name) == IF \E i \in DOMAIN o : o[i].name = name THEN CHOOSE i \in DOMAIN o : o[i].name = name ELSE 0
+RECURSIVE ParseAcc(_, _, _)
+ParseAcc(o, argv, acc) ==
     IF argv = <<>> THEN [ok |-> TRUE, ns |-> acc]
-    ELSE LET t == Head(argv)  i == OptIdx(t.o) IN
+    ELSE LET t == Head(argv)  i == OptIdx(o, t.o) IN
          IF i = 0 THEN [ok |-> FALSE, ns |-> acc]                                    \* unrecognised argument
-         ELSE LET o == Options[i] IN
-              IF o.action = "store" THEN
-                  (IF "v" \in DOMAIN t THEN ParseAcc(Tail(argv), [acc EXCEPT ![o.dest] = StrV(t.v)])
+         ELSE LET op == o[i] IN
+              IF op.action = "store" THEN
+                  (IF "v" \in DOMAIN t THEN ParseAcc(o, Tail(argv), [acc EXCEPT ![op.dest] = StrV(t.v)])
                    ELSE [ok |-> FALSE, ns |-> acc])                                  \* expected one argument
-              ELSE IF "v" \in DOMAIN t THEN [ok |-> FALSE, ns |-> acc]                \* switch given a value
-              ELSE ParseAcc(Tail(argv), [acc EXCEPT ![o.dest] = BoolV(o.action = "store_true")])
-DestSet == {Options[i].dest : i \in DOMAIN Options}
-Parse(argv) == ParseAcc(argv, [d \in DestSet |-> NoneV])
+              ELSE IF "v" \in DOMAIN t THEN [ok |-> FALSE, ns |-> acc]               \* switch given a value
+              ELSE ParseAcc(o, Tail(argv), [acc EXCEPT ![op.dest] = BoolV(op.action = "store_true")])
+DestSetOf(o) == {o[i].dest : i \in DOMAIN o}
+DestSet == DestSetOf(Options)
+ParseWith(o, argv) == ParseAcc(o, argv, [d \in DestSetOf(o) |-> NoneV])
+Parse(argv) == ParseWith(Options, argv)
 
 \* destinations in the order argparse registered them (first option of each destination)
-DestOrder ==
-    LET o == Options
-        RECURSIVE W(_, _)
+DestOrderOf(o) ==
+    LET RECURSIVE W(_, _)
         W(i, seen) == IF i > Len(o) THEN <<>>
                       ELSE IF o[i].dest \in seen THEN W(i + 1, seen)
                       ELSE <<o[i].dest>> \o W(i + 1, seen \cup {o[i].dest})
     IN W(1, {})
+DestOrder == DestOrderOf(Options)
 
 \* cmdline_args_override: in namespace order; the first rejected value ends it (partial)
 RECURSIVE Apply(_, _, _, _)
@@ -123,13 +127,15 @@ Set(pk, v) ==
 
 \* parse the command line with the generated parser and apply it
 Override(argv, ignore) ==
-    LET pr == Parse(argv) IN
+    LET o == Options
+        pr == ParseWith(o, argv)
+        order == DestOrderOf(o) IN
     IF ~pr.ok THEN /\ UNCHANGED cfg
                    /\ ev' = [op |-> "Override", argv |-> argv, ignore |-> ignore, out |-> "SystemExit", ns |-> <<>>]
-    ELSE LET r == Apply(cfg, pr.ns, ignore, DestOrder) IN
+    ELSE LET r == Apply(cfg, pr.ns, ignore, order) IN
          /\ cfg' = r.cfg
          /\ ev' = [op |-> "Override", argv |-> argv, ignore |-> ignore, out |-> Outcome(r),
-                   ns |-> [i \in DOMAIN DestOrder |-> <<DestOrder[i], pr.ns[DestOrder[i]]>>]]
+                   ns |-> [i \in DOMAIN order |-> <<order[i], pr.ns[order[i]]>>]]
 
 \* the naming queries (no state change): enumeration, option table
 \* mode: how the harness builds the schema before asking - "topdown", or "mounted": the nested
@@ -169,8 +175,10 @@ C16_Options ==
 ValueAtD(c, d) == CfgAt(c, SubSeq(d, 1, Len(d) - 1)).vals[d[Len(d)]]
 A_OnlySupplied ==
     (ev'.op = "Override" /\ ev'.out = "ok") =>
-        LET pr == Parse(ev'.argv) IN
-        /\ \A d \in DestSet :
+        LET o == Options
+            pr == ParseWith(o, ev'.argv)
+            dests == DestSetOf(o) IN
+        /\ \A d \in dests :
              IF ~IsNone(pr.ns[d]) /\ d \notin ev'.ignore
              THEN LET f == FieldOf(SchemaAt(S, SubSeq(d, 1, Len(d) - 1)), d[Len(d)])  r == Validate(f, pr.ns[d]) IN
                   r.ok /\ ValueAtD(cfg', d) = r.v
@@ -178,7 +186,7 @@ A_OnlySupplied ==
         /\ (ev'.argv = <<>>) => cfg' = cfg
         \* everything that has no option is untouched
         /\ \A pk \in LeafPaths(S, <<>>) :
-             (Append(pk[1], pk[2]) \notin DestSet /\ ~IsSchema(FieldOf(SchemaAt(S, pk[1]), pk[2]))) =>
+             (Append(pk[1], pk[2]) \notin dests /\ ~IsSchema(FieldOf(SchemaAt(S, pk[1]), pk[2]))) =>
                  CfgAt(cfg', pk[1]).vals[pk[2]] = CfgAt(cfg, pk[1]).vals[pk[2]]
 C16_OnlySupplied == [][A_OnlySupplied]_vars
 
